@@ -79,11 +79,15 @@ def r1(ctx, facts):
         okc = False
         for bid, i, rv, cb in closure_bodies_in(facts, b):
             rc = [(cbb, ct) for cbb, ct in cb.calls() if ct["callee"].get("path") == "saveload::marker::MarkerAllocator::retrieve_entity"]
-            if rc and all(cb.arg_origin(cbb, 1) == ("param", 2, ()) for cbb, ct in rc) and \
-                    any(d_[0] == "call" and d_[1] in [x for x, _ in rc] for d_ in cb.deps(cb.origin({"local": 0, "proj": []}))):
-                okc = True
+            if rc and all(cb.arg_origin(cbb, 1) == ("param", 2, ()) for cbb, ct in rc):
+                # every Some the closure returns carries exactly the result of retrieve_entity (which re-checks that the mapped entity still holds the marker)
+                somes = [st_ for blk in cb.blocks.values() for st_ in blk["stmts"] if st_["rv"]["k"] == "aggregate" and st_["rv"].get("variant") == "Some"]
+                okc = bool(somes) and all(cb.operand_origin(st_["rv"]["ops"][0]) in [("call", x, ()) for x, _ in rc] for st_ in somes)
+                lookups = [cbb for cbb, ct in cb.calls() if ct["callee"].get("name") == "retrieve_entity_internal"]
+                if lookups:
+                    okc = False
         ctx.ob("C14-R1", "deserialize: referenced markers are resolved through retrieve_entity", okc, b.loc(),
-               "" if okc else "the marker->entity closure does not return retrieve_entity(its marker)")
+               "" if okc else "the marker->entity closure returns something other than retrieve_entity(its marker) (e.g. the raw id mapping, which may point at a dead entity)")
     sr = facts.body("saveload::ser::SerializeComponents::serialize_recursive")
     ctx.anchor("C14-R1", "SerializeComponents::serialize_recursive (provided)", sr)
     if sr:
